@@ -1,7 +1,8 @@
 (* C20, the solutions: ExceptionTrace._render_solution writes, after the report of _render_exception, one block per
    solution the provider repository returns for the exception (title, description, documentation links - texts that come
    from outside clikit).  The line of a solution IS a line of literals and safe separators, for every title, description
-   and links; hence the solutions add no failure to render, and the undecorated bytes say the texts as they are. *)
+   and links; hence the solutions add no failure to render - which never fails (render_sol_never_fails_unconditionally) -
+   and the undecorated bytes say the texts as they are. *)
 From Coq Require Import Lia.
 From Clikit Require Import Base.Prelude Base.Res Model.Conv Model.Markup Model.OutputM Model.Trace
   Proofs.MarkupLemmas Proofs.OutputLemmas Proofs.TraceLemmas Proofs.LiteralLemmas Proofs.TraceRenderLemmas.
@@ -203,42 +204,48 @@ Proof.
   destruct (write_lines_good sty ls o Ho (render_lines_sol_good sty Herr Hb c simple _ x sols ls HL) Hne) as (o' & HW & _).
   rewrite HW. cbn [bind]. eexists. reflexivity.
 Qed.
-(* 3b. the solutions add no failure: the lines exist under exactly the condition of the report alone *)
-Theorem render_lines_sol_ok c ind x sols : (exists ls, render_lines_sol c false ind x sols = Ok ls) <-> render_cond c x.
+(* 3b. the solutions add no failure: the lines always exist, as those of the report alone do *)
+Theorem render_lines_sol_total c simple ind x sols : exists ls, render_lines_sol c simple ind x sols = Ok ls.
 Proof.
-  rewrite <- (render_lines_ok c ind x), render_lines_sol_shape. destruct (false || match x_frames x with [] => true | _ => false end); [reflexivity|].
-  split.
-  - intros (ls & H). destruct (render_lines c false ind x) as [l0|e]; cbn [bind] in H; [|discriminate]. exists l0. reflexivity.
-  - intros (l0 & H). rewrite H. cbn [bind]. eexists. reflexivity.
+  rewrite render_lines_sol_shape. destruct (simple || match x_frames x with [] => true | _ => false end); [apply render_lines_total|].
+  destruct (render_lines_total c simple ind x) as (l0 & ->). cbn [bind]. eexists. reflexivity.
 Qed.
 Theorem render_lines_sol_simple_ok c ind x sols : exists ls, render_lines_sol c true ind x sols = Ok ls.
-Proof. eexists. reflexivity. Qed.
-(* 3c. undecorated outputs: render_sol succeeds under exactly that condition; decorated: under it, when no line holds ESC *)
+Proof. apply render_lines_sol_total. Qed.
+(* 3c. an output that does not decorate: render_sol succeeds for EVERY exception case and EVERY solutions *)
+Theorem render_sol_never_fails_plain sty c simple o x sols :
+  out_ok sty o -> resolvable sty st_error -> resolvable sty st_b -> decorated o = false ->
+  exists bytes, render_sol c simple o x sols = Ok bytes.
+Proof.
+  intros Ho Herr Hb Hd. destruct (render_lines_sol_total c simple (o_indent o) x sols) as (ls & HL).
+  apply (render_sol_never_fails_l sty c simple o x sols ls Ho Herr Hb HL). rewrite Hd. discriminate.
+Qed.
+(* any output: when - if the output decorates - no line holds ESC *)
 Theorem render_sol_never_fails sty c simple o x sols :
   out_ok sty o -> resolvable sty st_error -> resolvable sty st_b ->
-  (simple = false -> render_cond c x) ->
   (decorated o = true -> forall ls, render_lines_sol c simple (o_indent o) x sols = Ok ls -> Forall (fun wl => no_esc (snd wl)) ls) ->
   exists bytes, render_sol c simple o x sols = Ok bytes.
 Proof.
-  intros Ho Herr Hb Hc Hne.
-  assert (exists ls, render_lines_sol c simple (o_indent o) x sols = Ok ls) as (ls & HL).
-  { destruct simple; [apply render_lines_sol_simple_ok|apply render_lines_sol_ok, Hc; reflexivity]. }
+  intros Ho Herr Hb Hne. destruct (render_lines_sol_total c simple (o_indent o) x sols) as (ls & HL).
   apply (render_sol_never_fails_l sty c simple o x sols ls Ho Herr Hb HL). intros Hd. apply (Hne Hd ls HL).
 Qed.
-Theorem render_sol_ok_cond c o x sols bytes : render_sol c false o x sols = Ok bytes -> render_cond c x.
-Proof.
-  unfold render_sol. intros H. destruct (render_lines_sol c false (o_indent o) x sols) as [ls|e] eqn:E; cbn [bind] in H; [|discriminate].
-  apply (render_lines_sol_ok c (o_indent o) x sols). exists ls. exact E.
-Qed.
-(* 3d. stated on the inputs: render_sol fails only if tokenize does - decorated (ESC-free inputs and solution texts) or not *)
-Theorem render_sol_never_fails_inputs sty c simple o x sols :
+(* 3d. THE statement with solutions, on the inputs: for every exception case, configuration, report mode, solutions and
+   output as in out_ok whose style table resolves "error" and "b" - when the output decorates: ESC-free inputs and
+   solution texts - render with a solution provider repository returns *)
+Theorem render_sol_never_fails_unconditionally sty c simple o x sols :
   out_ok sty o -> resolvable sty st_error -> resolvable sty st_b ->
-  (simple = false -> render_cond c x) -> (decorated o = true -> inputs_ne c x /\ Forall sol_ne sols) ->
+  (decorated o = true -> inputs_ne c x /\ Forall sol_ne sols) ->
   exists bytes, render_sol c simple o x sols = Ok bytes.
 Proof.
-  intros Ho Herr Hb Hc Hne. apply (render_sol_never_fails sty c simple o x sols Ho Herr Hb Hc).
+  intros Ho Herr Hb Hne. apply (render_sol_never_fails sty c simple o x sols Ho Herr Hb).
   intros Hd ls HL. destruct (Hne Hd) as [H1 H2]. apply (lines_sol_noesc c simple _ x sols ls H1 H2 HL).
 Qed.
+(* the earlier name (it had the hypothesis "tokenize succeeded where the full report needs it": no longer needed) *)
+Corollary render_sol_never_fails_inputs sty c simple o x sols :
+  out_ok sty o -> resolvable sty st_error -> resolvable sty st_b ->
+  (decorated o = true -> inputs_ne c x /\ Forall sol_ne sols) ->
+  exists bytes, render_sol c simple o x sols = Ok bytes.
+Proof. exact (render_sol_never_fails_unconditionally sty c simple o x sols). Qed.
 (* the report alone succeeds whenever the report with solutions does, and conversely (given the ESC-freeness) *)
 Theorem render_sol_simple c o x sols : render_sol c true o x sols = render c true o x.
 Proof. reflexivity. Qed.
@@ -317,6 +324,17 @@ Proof.
   { rewrite Hd. discriminate. }
   rewrite HW in HR. cbn [bind] in HR. injection HR as <-. rewrite (HB Hd), flat_map_app, shown_sol_plines by (unfold ind; lia).
   now rewrite app_assoc.
+Qed.
+(* ... and that always happens: no hypothesis on the exception case but that it has frames *)
+Theorem sol_bytes_total sty c o x sols :
+  out_ok sty o -> resolvable sty st_error -> resolvable sty st_b -> decorated o = false -> (0 <= o_indent o)%Z ->
+  x_frames x <> [] ->
+  let ind := (o_indent o + 2)%Z in
+  exists report, render c false o x = Ok report /\
+    render_sol c false o x sols = Ok (report ++ flat_map (fun s => [NL] ++ sol_shown ind (t_utf8 c) s) sols).
+Proof.
+  intros Ho Herr Hb Hd Hi Hne ind. destruct (render_sol_never_fails_plain sty c false o x sols Ho Herr Hb Hd) as (bytes & HR).
+  destruct (sol_bytes sty c o x sols bytes Ho Herr Hb Hd Hi Hne HR) as (report & H1 & ->). exists report. split; [exact H1|exact HR].
 Qed.
 (* the whole report with solutions: stack trace, blank line, class name, blank line, message block, snippet, and per
    solution a blank line and its block *)
@@ -411,19 +429,14 @@ Proof. repeat constructor; discriminate. Qed.
 Example ex_sol_never_fails_plain v simple :
   exists bytes, render_sol (demo_cfg v) simple (demo_out FPlain false 0) (demo_x [demo_frame; demo_frame]) [ex_s1; ex_s2] = Ok bytes.
 Proof.
-  apply (render_sol_never_fails demo_sty2); [apply demo_out_ok; discriminate|apply demo_error|apply demo_b|intros _; apply ex_cond|].
-  intros H. vm_compute in H. discriminate.
+  apply (render_sol_never_fails_plain demo_sty2); [apply demo_out_ok; discriminate|apply demo_error|apply demo_b|reflexivity].
 Qed.
 Example ex_sol_never_fails_ansi simple :
   exists bytes, render_sol (demo_cfg true) simple (demo_out (FAnsi false) true 4) (demo_x [demo_frame; demo_frame]) [ex_s1; ex_s2] = Ok bytes.
 Proof.
-  apply (render_sol_never_fails_inputs demo_sty2); [apply demo_out_ok; discriminate|apply demo_error|apply demo_b|intros _; apply ex_cond|].
+  apply (render_sol_never_fails_unconditionally demo_sty2); [apply demo_out_ok; discriminate|apply demo_error|apply demo_b|].
   intros _. split; [apply ex_inputs_ne|apply ex_sols_ne].
 Qed.
-(* a file that tokenize rejects: render_sol fails as render does, whatever the solutions *)
-Example ex_sol_render_fails : render_sol (demo_cfg false) false (demo_out FPlain false 0) (demo_x [bad_frame]) [ex_s1] = Err (Other 10).
-Proof. vm_compute. reflexivity. Qed.
-
 (* 4: the bytes, by computation: the report of ex_full_vm, then per solution a blank line and the block *)
 Definition ex_report : str := [10;32;32;66;60;47;101;114;114;111;114;62;10;10;32;32;60;98;62;120;92;32;10;10;32;32;97;116;32;97;46;112;121;58;49;32;105;110;32;60;102;62;10;32;32;32;32;62;32;32;32;49;124;32;120;10]%N.
 (*   * Close </error>: Escape it with \ _
@@ -438,6 +451,13 @@ Example ex_report_vm : render (demo_cfg false) false (demo_out FPlain false 0) (
 Proof. vm_compute. reflexivity. Qed.
 Example ex_sol_vm : render_sol (demo_cfg false) false (demo_out FPlain false 0) (demo_x [demo_frame]) [ex_s1; ex_s2]
   = Ok (ex_report ++ ex_block1 ++ ex_block2).
+Proof. vm_compute. reflexivity. Qed.
+(* a file that tokenize rejects / that cannot be read: the report without snippet lines, then the solutions *)
+Example ex_sol_unreadable_vm : render_sol (demo_cfg false) false (demo_out FPlain false 0) (demo_x [bad_frame]) [ex_s1]
+  = Ok (ex_head ++ [10;32;32;97;116;32;97;46;112;121;58;49;32;105;110;32;102;10]%N ++ ex_block1).
+Proof. vm_compute. reflexivity. Qed.
+Example ex_sol_unreadable_other_vm : render_sol (demo_cfg false) false (demo_out FPlain false 0) (demo_x [bad_frame2]) [ex_s1]
+  = Ok (ex_head ++ [10;32;32;97;116;32;98;46;112;121;58;55;32;105;110;32;103;10]%N ++ ex_block1).
 Proof. vm_compute. reflexivity. Qed.
 (* decorated: the same text under the escape codes *)
 Example ex_sol_ansi_vm :
@@ -468,9 +488,11 @@ Print Assumptions solution_line_good_ne.
 Print Assumptions render_lines_sol_good.
 Print Assumptions lines_sol_noesc.
 Print Assumptions render_sol_never_fails_l.
-Print Assumptions render_lines_sol_ok.
+Print Assumptions render_lines_sol_total.
+Print Assumptions render_sol_never_fails_plain.
 Print Assumptions render_sol_never_fails.
-Print Assumptions render_sol_never_fails_inputs.
+Print Assumptions render_sol_never_fails_unconditionally.
 Print Assumptions sol_bytes.
+Print Assumptions sol_bytes_total.
 Print Assumptions sol_full_bytes.
 Print Assumptions sol_shown_one_line.
